@@ -18,6 +18,7 @@ Nested(w)       == w = "[[T!]]"
 \* scalar configured with a pydantic-native type only, "raw" unconfigured custom scalar, "input" input object
 \* positions: "var" top-level operation variable, "field" field of an input object passed as a variable,
 \*            "nested" field of an input object nested in another one;
+\*            "recursive" field of a self-referential input (input Rec { a: T next: Rec }) two links down;
 \*            "sub_var" / "sub_field": the same two for a SUBSCRIPTION method: the variables travel in the payload of the
 \*            graphql-transport-ws subscribe frame (_send_subscribe) instead of an HTTP body, through the same conversion;
 \*            "result" / "result_nested" / "result_fragment": the same machine read in the other direction (C07, result
@@ -34,6 +35,7 @@ ValidCase(w, s) ==
 \* must be ABSENT from the payload so that the server applies that default
 Cases == {c \in [w : Wrappers, kind : Kinds, pos : Positions, state : States, dflt : BOOLEAN] :
             /\ ValidCase(c.w, c.state)
+            /\ c.pos = "recursive" => Nullable(c.w)      \* (a required field would have to be given on every link of the chain)
             /\ c.dflt => (c.pos \in {"var", "sub_var"} /\ c.w \in {"T", "[T!]"} /\ c.kind \in {"int", "enum"})
             /\ IsResult(c.pos) => (c.state # "omitted" /\ c.kind \in {"ser", "native", "raw"})
             /\ c.state = "val_falsy" => c.kind \in {"int", "ser", "raw"}}
